@@ -427,7 +427,8 @@ MORE = {
            'one ENOSPC at the n-th file-system operation of a pack for every '
            'n (pack time at the end and in the middle) and a stale .old that '
            'cannot be removed: a failed pack leaves the same answers, and the '
-           'next commit, pack and reopen work; the BlobStorage wrapper\'s '
+           'next commit, pack and reopen work; '
+           'a long undoLog() (several batches) against a pack; the BlobStorage wrapper\'s '
            'own pack (over FileStorage and MappingStorage) against a '
            'transaction that creates / rewrites a blob, up to 3 preemptions: '
            'every committed blob reads back.',
